@@ -185,6 +185,17 @@ func (e *Engine) callExternal(fn *types.Func, recv Value, args []Value, cx *ast.
 			}
 		}
 		return VTerm{T: acc, Typ: sl.Elem}
+	case "strings.HasSuffix":
+		e.notes["assumed external: strings.HasSuffix/TrimSuffix as uninterpreted functions with hassuffix(a,b) ==> trimsuffix(a,b) + b == a"] = true
+		return VTerm{T: mkApp("str_hassuffix", SBool, term(args[0]), term(args[1])), Typ: types.Typ[types.Bool]}
+	case "strings.TrimSuffix":
+		e.notes["assumed external: strings.HasSuffix/TrimSuffix as uninterpreted functions with hassuffix(a,b) ==> trimsuffix(a,b) + b == a"] = true
+		a, b := term(args[0]), term(args[1])
+		r := mkApp("str_trimsuffix", SStr, a, b)
+		st.assume(mkImplies(mkApp("str_hassuffix", SBool, a, b), mkEq(mkApp("str_concat", SStr, r, b), a)))
+		return VTerm{T: r, Typ: types.Typ[types.String]}
+	case "io/fs.DirEntry.Name":
+		return VTerm{T: mkApp("direntry_name", SStr, term(recv)), Typ: types.Typ[types.String]}
 	case "fmt.Sprintf", "fmt.Sprint", "time.Time.String", "time.Time.Format":
 		return VTerm{T: e.fresh("str", SStr), Typ: types.Typ[types.String]}
 	case "time.Now":
@@ -279,6 +290,13 @@ func (e *Engine) defaultExternal(full string, fn *types.Func, recv Value, args [
 			f := term(results[0])
 			st.mem["ftrunc:"+f.String()] = mkInt(fl.Int.Int64() & 0x200 >> 9)
 			st.mem["fappend:"+f.String()] = mkInt(fl.Int.Int64() & 0x400 >> 10)
+		}
+	case "os.ReadDir":
+		if sl, ok := results[0].(VSlice); ok && len(args) == 1 {
+			e.nfresh++
+			i := mkVar(fmt.Sprintf("i$%d", e.nfresh), SInt)
+			el := mkSelect(sl.Arr, i)
+			st.assume(mkForall([]*Term{i}, mkImplies(mkAnd(mkCmp("<=", mkInt(0), i), mkCmp("<", i, sl.Len)), mkApp("fs_direntry", SBool, term(args[0]), mkApp("direntry_name", SStr, el))), [][]*Term{{el}}))
 		}
 	case "net/http.Client.Do", "net/http.NewRequest", "os.Open", "os.Create":
 		if err := errOf(); err != nil {
